@@ -1,9 +1,33 @@
-(* C12 -- aggregation routines return valid partitions.  Property theorems only (bounded:
-   complete enumeration of the symmetric graphs on <= 4 vertices, with and without stored
-   diagonal; the bound is part of each statement). *)
+(* C12 -- aggregation routines return valid partitions.  Property theorems only.  Naive
+   aggregation: for EVERY graph (any number of vertices).  The others: bounded -- complete
+   enumeration of the symmetric graphs on <= 4 vertices, with and without stored diagonal;
+   the bound is part of each statement. *)
 From Coq Require Import ZArith List Bool.
 Import ListNotations.
 Require Import PV.Model.GraphAlg PV.Model.Aggregate PV.Proofs.GraphSpec PV.Proofs.GraphBounded PV.Proofs.AggBounded.
+Require Import PV.Proofs.NaiveAggProofs.
+Open Scope Z_scope.
+
+(* naive aggregation, every graph with N vertices whose column indices are in range (symmetric or
+   not, with or without diagonal, any row order): ids 1..c as the kernel leaves them, every vertex
+   in exactly one aggregate, aggregate a contains its root y[a-1] (so no aggregate is empty and the
+   roots are distinct), and every member is the root or a neighbour of the root *)
+Theorem C12_naive_aggregation_partition : forall (N : nat) (Ap Aj y0 : list Z),
+  (forall i, 0 <= i < Z.of_nat N -> forall j, In j (nbrs Ap Aj i) -> 0 <= j < Z.of_nat N) ->
+  length y0 = N ->
+  let n := Z.of_nat N in
+  let '(x, y, c) := naive_aggregation n Ap Aj y0 in
+  length x = N /\ 0 <= c <= n /\
+  (forall k, 0 <= k < n -> 1 <= get x k <= c) /\
+  (forall a, 1 <= a <= c -> 0 <= get y (a - 1) < n /\ get x (get y (a - 1)) = a) /\
+  (forall k, 0 <= k < n -> k = get y (get x k - 1) \/ In k (nbrs Ap Aj (get y (get x k - 1)))).
+Proof. exact (fun N Ap Aj y0 H Hy => naive_aggregation_partition N Ap Aj H y0 Hy). Qed.
+Print Assumptions C12_naive_aggregation_partition.
+
+(* non-vacuity: the path 0 - 1 - 2 with stored diagonal *)
+Example C12_naive_example :
+  naive_aggregation 3 [0; 2; 5; 7] [0; 1; 0; 1; 2; 1; 2] [-7; -7; -7] = ([1; 1; 2], [0; 2; -7], 2).
+Proof. vm_compute. reflexivity. Qed.
 
 (* standard aggregation: a partition with named roots; unaggregated <-> no off-diagonal
    connection; every aggregate connected; the third pass never opens an aggregate *)
